@@ -258,7 +258,11 @@ class PythonRegex(regex.Regex):
         if not bracket_content or bracket_content[0] != "^":
             return bracket_content
         # We inverse everything
-        return [x for x in ESCAPED_PRINTABLES if x not in bracket_content[1:]]
+        res = [x for x in ESCAPED_PRINTABLES if x not in bracket_content[1:]]
+        if "\n" not in bracket_content[1:] and "\\n" not in bracket_content[1:]:
+            # Contrary to the dot, a negated set matches the newline
+            res.append("\n")
+        return res
 
     @staticmethod
     def _insert_or(l_to_modify):
